@@ -37,10 +37,11 @@ class SimLoop(asyncio.BaseEventLoop):
         self.choices: list[int] = []       # recorded schedule (index among ready)
         self.multi_ready = 0               # probe: times >1 handle was ready
         self.jumps = 0
+        self.lag_us = 0                    # a loop clock that does not see time spent blocking the loop (virtual-time loops)
 
     # -- clock ----------------------------------------------------------
     def time(self) -> float:
-        return self._sim_clock.mono_us / 1e6
+        return (self._sim_clock.mono_us - self.lag_us) / 1e6
 
     @staticmethod
     def _when_us(when: float) -> int:
@@ -59,10 +60,10 @@ class SimLoop(asyncio.BaseEventLoop):
             if not sched:
                 raise SimDeadlock("no ready handle and no timer")
             due = self._when_us(sched[0]._when)
-            if due > self._sim_clock.mono_us:
-                self._sim_clock.mono_us = due
+            if due > self._sim_clock.mono_us - self.lag_us:
+                self._sim_clock.mono_us = due + self.lag_us
                 self.jumps += 1
-        now = self._sim_clock.mono_us
+        now = self._sim_clock.mono_us - self.lag_us
         while sched and (sched[0]._cancelled or self._when_us(sched[0]._when) <= now):
             h = heapq.heappop(sched)
             h._scheduled = False
@@ -113,8 +114,27 @@ class SimLoop(asyncio.BaseEventLoop):
     def call_soon_threadsafe(self, *a, **k):  # pragma: no cover
         raise RuntimeError("SimLoop is single-threaded")
 
-    def run_in_executor(self, *a, **k):  # pragma: no cover
-        raise RuntimeError("SimLoop has no executor")
+    def run_in_executor(self, executor, func, *args):
+        """Simulated executor: the function runs to completion at once (virtual time does not move unless it moves
+        it), and its result is delivered through a future on the next loop step -- as a real pool would, including
+        the case where the exception cannot be set on a future (StopIteration): that future never resolves."""
+        fut = self.create_future()
+
+        def deliver():
+            try:
+                res = func(*args)
+            except BaseException as exc:  # noqa: BLE001 - handed to the awaiting side
+                if isinstance(exc, (KeyboardInterrupt, SystemExit)):
+                    raise
+                try:
+                    fut.set_exception(exc)
+                except TypeError:
+                    pass              # asyncio refuses StopIteration: the awaiting side hangs, as with a real pool
+                return
+            if not fut.done():
+                fut.set_result(res)
+        self.call_soon(deliver)
+        return fut
 
 
 def run(clock, main_factory, chooser=None, step_cap: int = 200_000):
